@@ -18,7 +18,7 @@ func Interpret(prop string, val []Comp) (Longhands, bool) {
 		return nil, false
 	}
 	cs := NoWS(val)
-	if len(cs) == 0 || hasVar(cs) {
+	if len(cs) == 0 || hasVar(cs) && p != "font-family" {
 		return nil, false
 	}
 	if p == "unicode-range" && !(len(cs) == 1 && cs[0].Kind == KIdent && len(cs[0].Val) > 2) {
@@ -278,26 +278,42 @@ var wideKeywords = map[string]bool{"inherit": true, "initial": true, "unset": tr
 
 // parseFamilyList: <family-name>#; names compare ASCII case-insensitively; a quoted name is
 // never a generic family or a keyword.
-func parseFamilyList(cs []Comp) ([]LV, bool) {
+func parseFamilyList(cs []Comp) ([]LV, string, bool) {
 	var out []LV
+	tag := ""
 	for _, part := range splitCommas(cs) {
 		if len(part) == 0 {
-			return nil, false
+			return nil, "", false
 		}
 		if len(part) == 1 && part[0].Kind == KString {
 			out = append(out, s("name:"+lower(part[0].Val)))
 			continue
 		}
+		if len(part) == 1 && part[0].FuncName() == "var" {
+			out = append(out, LV{Opaque: part})
+			continue
+		}
 		var words []string
 		for i := range part {
 			if part[i].Kind != KIdent {
-				return nil, false
+				return nil, "", false
 			}
 			words = append(words, lower(part[i].Val))
 		}
+		if len(words) > 1 {
+			// sub-domains of unquoted multi-word names, named from the input alone
+			for _, w := range words {
+				if fontKeywords[w] && tag == "" {
+					tag = "keyword-in-unquoted-family-name"
+				}
+			}
+			if strings.HasPrefix(words[0], "-") {
+				tag = "hyphen-first-word-of-unquoted-family-name"
+			}
+		}
 		if len(words) == 1 {
 			if wideKeywords[words[0]] {
-				return nil, false
+				return nil, "", false
 			}
 			if genericFamilies[words[0]] {
 				out = append(out, s("generic:"+words[0]))
@@ -306,11 +322,17 @@ func parseFamilyList(cs []Comp) ([]LV, bool) {
 		}
 		out = append(out, s("name:"+strings.Join(words, " ")))
 	}
-	return out, true
+	return out, tag, true
 }
 
+// fontKeywords are the keywords of the font shorthand that may also occur as words of an
+// unquoted family name.
+var fontKeywords = map[string]bool{"normal": true, "bold": true, "bolder": true, "lighter": true, "italic": true, "oblique": true, "small-caps": true,
+	"xx-small": true, "x-small": true, "small": true, "medium": true, "large": true, "x-large": true, "xx-large": true, "smaller": true, "larger": true,
+	"inherit": true, "initial": true, "unset": true, "condensed": true, "expanded": true}
+
 func parseFontFamilyProp(p string, cs []Comp) (Longhands, bool) {
-	v, ok := parseFamilyList(cs)
+	v, _, ok := parseFamilyList(cs)
 	if !ok {
 		return nil, false
 	}
@@ -385,9 +407,13 @@ func parseFont(p string, cs []Comp) (Longhands, bool) {
 	if i >= len(cs) {
 		return nil, false
 	}
-	fam, ok := parseFamilyList(cs[i:])
+	fam, tag, ok := parseFamilyList(cs[i:])
 	if !ok {
 		return nil, false
+	}
+	if tag != "" {
+		return Longhands{{"#tag", one(tag)}, {"font-style", []LV{style}}, {"font-variant", []LV{variant}}, {"font-weight", []LV{weight}}, {"font-stretch", []LV{stretch}},
+			{"font-size", []LV{size}}, {"line-height", []LV{lh}}, {"font-family", fam}}, true
 	}
 	return Longhands{{"font-style", []LV{style}}, {"font-variant", []LV{variant}}, {"font-weight", []LV{weight}}, {"font-stretch", []LV{stretch}},
 		{"font-size", []LV{size}}, {"line-height", []LV{lh}}, {"font-family", fam}}, true
@@ -450,7 +476,7 @@ func parseFlex(p string, cs []Comp) (Longhands, bool) {
 		}
 		basis = &v
 	}
-	g, sh, b := s("n1e0"), s("n1e0"), s("0%")
+	g, sh, b := s("n1e0"), s("n1e0"), s(numCanon("0")+"%")
 	if len(nums) > 0 {
 		g = nums[0]
 	}
